@@ -4,6 +4,7 @@ import (
 	"encoding/json"
 	"fmt"
 	"os"
+	"runtime"
 	"strconv"
 	"strings"
 	"sync"
@@ -214,6 +215,15 @@ func (q *searcher) checkPack(p []*types.Transaction) {
 
 func (q *searcher) line(l string) { q.hist = append(q.hist, l) }
 
+// kept: every list / transaction the pool handed out earlier in this history still reads as it was returned
+func (q *searcher) kept(op string) {
+	q.evals++
+	if d := q.s.w.CheckKept(op); d != "" {
+		q.report("returned-batch-mutated", d)
+		q.s.w.resetKept()
+	}
+}
+
 func (q *searcher) opAdd(id int) {
 	w := q.s.w
 	tx := w.txs[id]
@@ -228,6 +238,7 @@ func (q *searcher) opAdd(id int) {
 		q.report("readmit-executed", "AddTransaction accepted "+tx.Hash.String()+" which has a receipt on the chain")
 	}
 	q.checkPending("add")
+	q.kept("add")
 }
 
 func (q *searcher) opPack() []*types.Transaction {
@@ -239,18 +250,9 @@ func (q *searcher) opPack() []*types.Transaction {
 		return nil
 	}
 	q.checkPack(p)
-	// retention / history: the caller scribbles over the returned slice (the chain sorts it in place); a second
-	// call must give the same batch again (PackForCast is read-only for the pool)
-	want := make([]*types.Transaction, len(p))
-	copy(want, p)
-	for i, j := 0, len(p)-1; i < j; i, j = i+1, j-1 {
-		p[i], p[j] = p[j], p[i]
-	}
-	for i := range p {
-		if i%2 == 0 {
-			p[i] = nil
-		}
-	}
+	// history: a second call on the unchanged pool must give the same batch again (PackForCast is read-only for
+	// the pool); both batches stay in the retention window of World and are re-read after every later call
+	want := p
 	var p2 []*types.Transaction
 	hx.Guard(func() string { p2 = q.s.w.Pack(); return "ok" })
 	same := len(p2) == len(want)
@@ -258,8 +260,9 @@ func (q *searcher) opPack() []*types.Transaction {
 		same = p2[i] == want[i]
 	}
 	if !same {
-		q.report("pack-not-repeatable", fmt.Sprintf("PackForCast called twice on an unchanged pool returned different batches (%d then %d transactions), the first result having been modified by the caller in between", len(want), len(p2)))
+		q.report("pack-not-repeatable", fmt.Sprintf("PackForCast called twice on an unchanged pool returned different batches (%d then %d transactions)", len(want), len(p2)))
 	}
+	q.kept("pack")
 	return want
 }
 
@@ -283,8 +286,23 @@ func (q *searcher) opMark(b block) bool {
 			q.report("mark-not-recorded", "after MarkExecuted "+h.String()+fmt.Sprintf(" pending=%v executed=%v", pend[h], w.pool.GetExecuted(h) != nil))
 		}
 	}
+	// evictions: a hash on the block's evicted list is not pending afterwards (it was not executed: no record either,
+	// unless the same block or an earlier one on the chain executed it)
+	for _, id := range b.eids {
+		h := w.txs[id].Hash
+		stillPending := false
+		for _, t := range w.pool.GetReceived() {
+			if t.Hash == h {
+				stillPending = true
+			}
+		}
+		if stillPending {
+			q.report("evicted-still-pending", fmt.Sprintf("%s is on the evicted list of the marked block (receipts %d, transactions %d, evicted %d) and is still pending", h.String(), len(b.rids), len(b.tids), len(b.eids)))
+		}
+	}
 	q.checkPending("mark")
 	q.checkRecords("mark")
+	q.kept("mark")
 	return true
 }
 
@@ -353,6 +371,7 @@ func (q *searcher) opUnmark(b block) {
 	}
 	q.checkPending("unmark")
 	q.checkRecords("unmark")
+	q.kept("unmark")
 }
 
 func (q *searcher) history(nops int, limit int) {
@@ -678,6 +697,53 @@ func (q *searcher) limitBoundary() {
 	}
 }
 
+// markCorners: every corner of MarkExecuted / UnMarkExecuted arguments — receipts empty or not × evicted list empty or
+// not × block list empty, equal to the receipts, or larger (transactions without receipt) — with the evicted
+// transactions pending or unknown, each followed by packs, the removal of the block, and packs again.
+func (q *searcher) markCorners() {
+	s := q.s
+	for _, nr := range []int{0, 1, 3} {
+		for _, ne := range []int{0, 1, 2} {
+			for _, extra := range []int{0, 2} {
+				for _, evPending := range []bool{true, false} {
+					q.onChain = map[common.Hash]int{}
+					var op string
+					hx.Guard(func() string { op = s.w.Reset(true, true, true, true, 0); return "" })
+					q.hist = []string{op, fmt.Sprintf("# block with %d receipts, %d evicted (pending here: %v), %d transactions without receipt", nr, ne, evPending, extra)}
+					s.all, s.chain = nil, nil
+					srcs := canonicalSources(s.r)
+					mk := func(n int, add bool) []int {
+						var ids []int
+						for i := 0; i < n; i++ {
+							id, l := s.w.NewTx(s.r.Bytes(32), srcs[i%5], 0, uint64(1+len(s.all)), 0)
+							q.line(l)
+							s.all = append(s.all, id)
+							ids = append(ids, id)
+							if add {
+								q.opAdd(id)
+							}
+						}
+						return ids
+					}
+					rids := mk(nr, true)
+					eids := mk(ne, evPending)
+					skipped := mk(extra, true)
+					bystanders := mk(2, true)
+					_ = bystanders
+					q.opPack()
+					b := block{rids: rids, tids: append(append([]int{}, rids...), skipped...), eids: eids}
+					if !q.opMark(b) {
+						continue
+					}
+					q.opPack()
+					q.opUnmark(b)
+					q.opPack()
+				}
+			}
+		}
+	}
+}
+
 func runSearch(a map[string]string, pool service.TransactionPool) {
 	r := hx.NewRng(hx.SeedFromEnv() ^ 0x5ea7c4)
 	s := &script{w: newWorld(pool), r: r}
@@ -688,6 +754,7 @@ func runSearch(a map[string]string, pool service.TransactionPool) {
 	q.reqMixExhaustive()
 	q.cutBoundary()
 	q.limitBoundary()
+	q.markCorners()
 	for i := 0; i < n; i++ {
 		limit := 0
 		if r.Chance(1, 4) {
@@ -815,6 +882,37 @@ func runRace(a map[string]string, pool service.TransactionPool) {
 				}
 			}
 		}()
+		// two more casters (from proposal 020 on a cast executes asynchronously while the next one packs): each keeps
+		// the batch it was handed, does something else, and reads it again — it must be what it was when returned
+		var mutated string
+		for pk := 0; pk < 2; pk++ {
+			wg.Add(1)
+			go func(pk int) {
+				defer wg.Done()
+				st, _ := middleware.AccountDBManagerInstance.GetAccountDBByHash(common.Hash{})
+				for i := 0; i < per/4; i++ {
+					var p []*types.Transaction
+					guard("PackForCast", func() { p = pool.PackForCast(forkHeight+1, st) })
+					snap := append([]*types.Transaction{}, p...)
+					guard("IsExisted", func() {
+						for k := 0; k < 3 && k < len(snap); k++ {
+							pool.IsExisted(snap[k].Hash)
+						}
+					})
+					runtime.Gosched()
+					for k := range snap {
+						if k >= len(p) || p[k] != snap[k] {
+							mu.Lock()
+							if mutated == "" {
+								mutated = fmt.Sprintf("caster %d: entry %d of a batch of %d changed after PackForCast returned it (another PackForCast ran meanwhile)", pk, k, len(snap))
+							}
+							mu.Unlock()
+							break
+						}
+					}
+				}
+			}(pk)
+		}
 		// lookups
 		wg.Add(1)
 		go func() {
@@ -851,6 +949,9 @@ func runRace(a map[string]string, pool service.TransactionPool) {
 		}
 		if bad != "" {
 			findings = append(findings, finding{"concurrent-state", bad, []string{fmt.Sprintf("mode=race seed=%d round=%d goroutines=%d per=%d", hx.SeedFromEnv(), round, G, per)}})
+		}
+		if mutated != "" {
+			findings = append(findings, finding{"concurrent-batch-mutated", mutated, []string{fmt.Sprintf("mode=race seed=%d round=%d goroutines=%d per=%d", hx.SeedFromEnv(), round, G, per)}})
 		}
 		for _, p := range panics {
 			findings = append(findings, finding{"concurrent-panic", p, []string{fmt.Sprintf("mode=race seed=%d round=%d", hx.SeedFromEnv(), round)}})
